@@ -52,6 +52,8 @@ NEG = [
     ("Orientation", "MC_Orientation_neg_sincos", "Cardinals"),
     ("Orientation", "MC_Orientation_neg_sign", "Cardinals"),
     ("Cache", "MC_Cache_sim_neg_key", "SIM"),
+    ("Cache", "MC_Cache_neg_key_lemma", "KeyDeterminesResult"),
+    ("Cache", "MC_Cache_neg_halo_lemma", "LookupFindsOwnStore"),
     ("KMTypes", "MC_KMTypes_neg_like", "NoLossyStore"),
     ("KMGrid", "MC_KMGrid_neg_cw", None),
     ("KMGrid", "MC_KMGrid_neg_rows", "Coordinates"),
